@@ -187,7 +187,10 @@ def _analyse(ctx, R, name, partial_parser=False, request=False):
         ctx.check(guard_ok, "R20.7", "half-field-guard:" + name, "the emptiness guard dominates the append (no half-parsed field is reported)", loc=body_loc(b))
     # name and value of one append come from the same element
     hdr_ev = [e for _, _, o in rows for e in o.state.events if e[0].endswith("Builder::header")]
-    same = all(_same_element(e) for e in hdr_ev) and bool(hdr_ev)
+    # iterations beyond the loop bound carry no origin information (recycled atoms / unknowns)
+    inform = [e for e in hdr_ev if e[1][1] != ("top",) and e[1][2] != ("top",) and "'*'" not in repr(e[1][1]) and "widen" not in repr(e[1][1])
+              and not isinstance(e[1][1], str)]
+    same = all(_same_element(e) for e in inform) and bool(inform)
     ctx.check(same, R, "same-element:" + name, "each append takes name and value from the same parsed field", loc=body_loc(b))
     # the array handed to the tokeniser has the caller's limit N
     rep = [s for blk in b.blocks for s in blk["stmts"] if s["k"] == "assign" and s["rv"]["k"] == "repeat"]
@@ -197,12 +200,9 @@ def _analyse(ctx, R, name, partial_parser=False, request=False):
 
 
 def _same_element(e):
+    """name and value arguments are the `name` / `value` fields of one and the same element"""
     a, c = repr(e[1][1]), repr(e[1][2])
-    # both are projections (name / value) of the same iterator element atom
-    import re
-    ea = re.findall(r"'(?:call|hv|widen)', [^)]*?next", a)
-    ec = re.findall(r"'(?:call|hv|widen)', [^)]*?next", c)
-    return ("name" in a and "value" in c) and (ea[:1] == ec[:1])
+    return "'name'" in a and "'value'" in c and a.replace("'name'", "'#'") == c.replace("'value'", "'#'")
 
 
 def rule_c20(ctx):
